@@ -365,3 +365,32 @@ Proof.
   destruct (wp_subst _ g0 _ ctx Hresp Hctx) as [Wc _].
   rewrite <- pp_subst. apply parse_expr_print; assumption.
 Qed.
+
+(* ---- underef's suggestion ---- *)
+Lemma underef_sel_primary x f : good x = true -> wp g0 x = true -> level g0 x = 7 -> is_punct f = false ->
+  exists f0, forall k, f0 <= k -> parse_expr k (underef_sel_text x f) = Some (ESel x f).
+Proof.
+  intros Hg Hw H7 Hf.
+  assert (E : underef_sel_text x f = pp (ESel x f)).
+  { unfold underef_sel_text, underef_operand. destruct x; try reflexivity. cbn [level] in H7. discriminate. }
+  rewrite E. apply parse_expr_print.
+  - cbn [good]. rewrite Hf, Hg. reflexivity.
+  - cbn [wp]. rewrite Hw, H7. reflexivity.
+Qed.
+
+Lemma underef_sel_star y f : good y = true -> wp g0 y = true -> 6 <= level g0 y -> is_punct f = false ->
+  exists f0, forall k, f0 <= k -> parse_expr k (underef_sel_text (EUn "*" y) f) = Some (ESel (EParen (EUn "*" y)) f).
+Proof.
+  intros Hg Hw H6 Hf.
+  change (underef_sel_text (EUn "*" y) f) with (pp (ESel (EParen (EUn "*" y)) f)).
+  apply parse_expr_print.
+  - cbn [good]. rewrite Hf, Hg. reflexivity.
+  - cbn [wp level]. rewrite Hw. apply Nat.leb_le in H6. rewrite H6. reflexivity.
+Qed.
+
+(* for any other unary operand the printed suggestion is read as the operator applied to the selection *)
+Lemma underef_sel_unary_regroups :
+  parse_expr 20 (underef_sel_text (EUn "&" (EAtom "x")) "v") = Some (EUn "&" (ESel (EAtom "x") "v"))
+  /\ parse_expr 20 (underef_sel_text (EUn "<-" (EAtom "ch")) "v") = Some (EUn "<-" (ESel (EAtom "ch") "v"))
+  /\ underef_sel_tree (EUn "&" (EAtom "x")) "v" = ESel (EUn "&" (EAtom "x")) "v".
+Proof. vm_compute. auto. Qed.
